@@ -190,6 +190,9 @@ func checkScan(fn string, buf string, pos int) string {
 		if tk.ttype != New_TokenType_EOF && tk.len < 1 {
 			return fmt.Sprintf("%s(%q, %d): no progress: non-EOF token %v of length %d", fn, buf, pos, tk.ttype, tk.len)
 		}
+		if fn == "scanTokenAt" && pos < len(buf) && (buf[pos] == ' ' || buf[pos] == '\t' || (pos+1 < len(buf) && buf[pos] == '/' && (buf[pos+1] == '/' || buf[pos+1] == '*'))) && tk.ttype != New_TokenType_SPACE {
+			return fmt.Sprintf("scanTokenAt(%q, %d) returns a %v token where a blank or comment starts (C06: blanks and comments are folded into SPACE tokens)", buf, pos, tk.ttype)
+		}
 		if fn == "nextToken" && tk.ttype == New_TokenType_SPACE {
 			return fmt.Sprintf("nextToken(%q, end=%d) returned a SPACE token", buf, pos)
 		}
